@@ -63,7 +63,7 @@ def one(target, props_mode, with_regressions, cases):
         res["tests"] = passed[0] if passed else out[-300:]
         res["tests_ok"] = rc == 0 and any(" 62 passed; 0 failed" in l for l in passed)
         # 2. simulator against the copy
-        shutil.copytree(f"{VERIF}/sim", f"{work}/sim", ignore=shutil.ignore_patterns("target", "build.log"))
+        shutil.copytree(os.environ.get("PYXIS_SENS_SIM", f"{VERIF}/sim"), f"{work}/sim", ignore=shutil.ignore_patterns("target", "build.log"))
         toml = open(f"{work}/sim/Cargo.toml").read().replace('path = "/repo"', f'path = "{work}/repo"')
         open(f"{work}/sim/Cargo.toml", "w").write(toml)
         env = dict(ENV, CARGO_TARGET_DIR=f"{ROOT}/target-sim")
